@@ -170,6 +170,7 @@ def tlc_mc(module, cfg, workers=8, timeout=900, expect_violation=None, name=None
             a[1] += int(mm.group(4))
     viol = re.search(r"Error: Invariant (\w+) is violated", out) or \
         re.search(r"Error: Action property (\w+) is violated", out) or \
+        re.search(r"Error: Temporal property (\w+) was violated", out) or \
         re.search(r"Error: Temporal properties were violated", out)
     res["violated"] = (viol.group(1) if viol and viol.groups() else ("temporal" if viol else None))
     if r.returncode == 124:
